@@ -61,7 +61,10 @@ def gen_cases(ctx):
         if ctx.rng.random() < 0.12:
             o["mapper_ptr"] = 1.0
         o["manual"] = 0.2
-        specs.append(("random", g.pair(**o)))
+        sp = g.pair(**o)
+        if ctx.rng.random() < 0.2:
+            mapgen.add_companion(ctx.rng, sp, file_mode=0.5)
+        specs.append(("random", sp))
     cases = []
     for i, (feat, sp) in enumerate(specs):
         ks = len(mapgen.slots(mapgen.side_struct(sp, "src")))
